@@ -102,11 +102,23 @@ func init() {
 				}
 				panel := MakeUserPanel(mgr)
 				net := vnet.New()
+				tlsConns := c.P("tls", "0") == "1"
+				// the volume a tapped write carried for the limiter: with the record layer, without its 5-byte header
+				vol := func(t vnet.TapRec) int64 {
+					if tlsConns {
+						if len(t.Data) < 5 {
+							return 0
+						}
+						return int64(len(t.Data) - 5)
+					}
+					return int64(len(t.Data))
+				}
 				type wired struct {
 					u        int
 					s        uint32
 					srv, cli *mux.Session
 					rec      *ActiveUser
+					srvEnd   *vnet.Conn
 				}
 				ws := map[string]*wired{}
 				// admit: what a new connection does (GetUser, GetSession, attach); returns false when refused
@@ -129,10 +141,18 @@ func init() {
 						return false
 					}
 					cli := mux.MakeSession(uint32(s), plainSeshConfig())
+					if tlsConns {
+						// through the record layer, as every non-CDN connection is (its Write reports payload bytes)
+						a, b := net.Pair(fmt.Sprintf("u%ds%d", u, s), false)
+						srv.AddConnection(common.NewTLSConn(b))
+						cli.AddConnection(common.NewTLSConn(a))
+						ws[sp] = &wired{u, uint32(s), srv, cli, user, b}
+						return true
+					}
 					a, b := net.Pair(fmt.Sprintf("u%ds%d", u, s), true)
 					srv.AddConnection(b)
 					cli.AddConnection(a)
-					ws[sp] = &wired{u, uint32(s), srv, cli, user}
+					ws[sp] = &wired{u, uint32(s), srv, cli, user, b}
 					return true
 				}
 				for _, sp := range seshSpecs {
@@ -141,6 +161,7 @@ func init() {
 				var wg sync.WaitGroup
 				deleted, expired, topped := map[int]bool{}, map[int]bool{}, map[int]int64{}
 				closedByTest := map[string]bool{}
+				closedByFault := map[string]bool{}
 				// sequential histories of traffic and rounds only: what had crossed the wire when a round began
 				// (with the user still active) is what that round must have charged in all
 				tapVol := func() (map[int]int64, map[int]int64) {
@@ -149,9 +170,9 @@ func init() {
 						var u, s int
 						fmt.Sscanf(t.Conn, "u%ds%d", &u, &s)
 						if t.Dir == "a>b" {
-							up[u] += int64(len(t.Data))
+							up[u] += vol(t)
 						} else {
-							down[u] += int64(len(t.Data))
+							down[u] += vol(t)
 						}
 					}
 					return up, down
@@ -200,6 +221,16 @@ func init() {
 								return
 							}
 							st.Write(make([]byte, n))
+						case strings.HasPrefix(op, "downfail"):
+							// the server's next write on this session's connection fails with nothing sent (the peer
+							// has gone): no volume was carried
+							fmt.Sscanf(op, "downfail%d.%d:%d", &u, &s, &n)
+							w := ws[fmt.Sprintf("%d.%d", u, s)]
+							closedByFault[fmt.Sprintf("%d.%d", u, s)] = true // the failed write tears this session down
+							w.srvEnd.PartialAt, w.srvEnd.PartialKeep = 1, 0
+							if st, err := w.srv.OpenStream(); err == nil {
+								st.Write(make([]byte, n))
+							}
 						case strings.HasPrefix(op, "down"):
 							fmt.Sscanf(op, "down%d.%d:%d", &u, &s, &n)
 							w := ws[fmt.Sprintf("%d.%d", u, s)]
@@ -292,9 +323,9 @@ func init() {
 					var u, s int
 					fmt.Sscanf(t.Conn, "u%ds%d", &u, &s)
 					if t.Dir == "a>b" {
-						tapUp[u] += int64(len(t.Data))
+						tapUp[u] += vol(t)
 					} else {
-						tapDown[u] += int64(len(t.Data))
+						tapDown[u] += vol(t)
 					}
 				}
 				check := func(when string, exact bool) {
@@ -367,7 +398,7 @@ func init() {
 					if cut && !w.srv.IsClosed() {
 						vrt.Fail("exhausted-users-cut-off", "user %d (deleted=%v expired=%v upCredit=%d downCredit=%d) still has live session %d after a completed usage upload", w.u, deleted[w.u], expired[w.u], up, down, w.s)
 					}
-					if !cut && !closedByTest[fmt.Sprintf("%d.%d", w.u, w.s)] && w.srv.IsClosed() && !anyClosed {
+					if !cut && !closedByTest[fmt.Sprintf("%d.%d", w.u, w.s)] && !closedByFault[fmt.Sprintf("%d.%d", w.u, w.s)] && w.srv.IsClosed() && !anyClosed {
 						vrt.Fail("only-exhausted-users-cut-off", "user %d has credit (%d/%d) yet its session %d was closed: %q", w.u, up, down, w.s, w.srv.TerminalMsg())
 					}
 				}
@@ -377,9 +408,12 @@ func init() {
 					srvIn := map[int]int64{}
 					for _, cn := range net.Conns {
 						var u, s int
-						if n, _ := fmt.Sscanf(cn.Name, "u%ds%d/b", &u, &s); n == 2 && strings.HasSuffix(cn.Name, "/b") {
+						if n, _ := fmt.Sscanf(cn.Name, "u%ds%d/b", &u, &s); n == 2 && strings.HasSuffix(cn.Name, "/b") && !tlsConns {
 							srvIn[u] += cn.BytesIn
 						}
+					}
+					if tlsConns {
+						srvIn = tapUp // (per record without its header: what the record layer hands to the session)
 					}
 					for u := 0; u < 2; u++ {
 						if up, _, ok := credits(u); ok && upCredit-up != srvIn[u] {
@@ -436,6 +470,10 @@ func init() {
 			{Scenario: "panel.usage", Params: vx.P("sessions", "0.1", "ops", "up0.1:10,round,expire0", "db", "bolt"), Bound: b(1, 2), Weight: 7},
 			{Scenario: "panel.usage", Params: vx.P("sessions", "0.1", "ops", "up0.1:10,round,expirezero0", "db", "bolt"), Bound: b(1, 2), Weight: 7},
 			{Scenario: "panel.usage", Params: vx.P("sessions", "0.1", "ops", "up0.1:10,round,cap0", "db", "bolt"), Bound: b(1, 2), Weight: 7},
+			// the record layer under the sessions; a server write that fails with nothing sent carries no volume
+			{Scenario: "panel.usage", Params: vx.P("sessions", "0.1", "ops", "up0.1:40,down0.1:30,round", "seq", "1", "tls", "1"), Bound: 0, Weight: 3},
+			{Scenario: "panel.usage", Params: vx.P("sessions", "0.1,0.2", "ops", "down0.1:30,downfail0.2:50,round", "seq", "1", "tls", "1"), Bound: 0, Weight: 3},
+			{Scenario: "panel.usage", Params: vx.P("sessions", "0.1,0.2", "ops", "downfail0.2:50,round,down0.1:30,round", "seq", "1", "tls", "1", "db", "bolt"), Bound: 0, Weight: 3},
 			// termination of a user one of whose sessions the peer has already ended: the others are closed all the same
 			{Scenario: "panel.usage", Params: vx.P("sessions", "0.1,0.2,0.3", "ops", "drop0.1,up0.2:300,round", "upcredit", "200", "seq", "1"), Bound: 0, Weight: 3},
 			{Scenario: "panel.usage", Params: vx.P("sessions", "0.1,0.2,0.3", "ops", "drop0.2,up0.3:300,round", "upcredit", "200", "seq", "1"), Bound: 0, Weight: 3},
